@@ -89,7 +89,7 @@ def check(run):
         for lay in (0, 1):
             for pol in (['Block'] if kind in ('syncfile', 'fifofile', 'console', 'file', 'rolling', 'rollingsep', 'syncrollingapp') else ['Block', 'Discard', 'DiscardOldest']):
                 for _ in range(1 if quick else 6):
-                    kcases.append('%s %d %s %d %d 0' % (kind, lay, pol, rng.choice([0, 1, 7, 60]), rng.choice([0, 1, 5])))
+                    kcases.append('%s %d %s %d %d %d' % (kind, lay, pol, rng.choice([0, 1, 7, 60]), rng.choice([0, 1, 5]), 1 if rng.random() < 0.3 else 0))
     # rolling kinds again with the events spread over three rotation boundaries (descriptors are retired and closed on the way)
     for kind in ('rolling', 'rollingsep', 'rollingasync', 'syncrollingapp'):
         kcases.append('%s %d Block %d %d 0 3300' % (kind, rng.randint(0, 1), rng.choice([12, 40]), rng.choice([0, 3])))
@@ -109,7 +109,7 @@ def check(run):
             if not bad:
                 run.discharged += 1
             run.stream('c05/logger-kinds', len(kcases), len(kcases), False, 'Refresh-built loggers of every kind (sync/async with file appender, console, file, rolling sync/async with/without .wf, rolling appender), '
-                       'with/without logger layout; events + raw writes (with nil and empty raw writes in between), then Destroy under a watchdog; sinks read immediately; descriptors into the log directory counted before/after')
+                       'with/without logger layout, in a third of the cases after a second Refresh that was rejected; events + raw writes (with nil and empty raw writes in between), then Destroy under a watchdog; sinks read immediately; descriptors into the log directory counted before/after')
             run.coverage['samples'].append({'stream': 'c05/logger-kinds', 'case': kcases[0], 'observation': io[0][:200]})
         # 3. appenders built directly: Stop once or twice, Stop without Start, Start again after Stop, writes outside Start..Stop
         acases = []
